@@ -153,7 +153,7 @@ def model_fd(case, ctx):
 
 @subcheck("C04", "locality_cutoff", st_model_case, quick=2400, thorough=40000, tolerances=TOL,
           rule="same generator; (locality) changing the features of one sample leaves the energy density and derivative of "
-               "every other sample bit-identical; (cutoff law) for rhocut in {1e-10, 1e-9, 1e-6, a value between two sample "
+               "every other sample unchanged (1e-13 of the batch maximum); (cutoff law) for rhocut in {1e-10, 1e-9, 1e-6, a value between two sample "
                "densities}: samples whose total density (per-channel spin-scaled density for SEP) is below rhocut have "
                "machine-learned energy density exactly 0 and derivative exactly 0 (models evaluated without additive baseline "
                "part by comparing with the additive baseline alone), samples above it equal the rhocut=0 result to 1e-13 of the batch maximum; "
@@ -175,8 +175,8 @@ def locality_cutoff(case, ctx):
     Xp[:, 1:, g] *= 1.0 + 0.1 * rng.uniform(0.5, 1.0, (nspin, fs.nfeat - 1))
     f1, d1, _ = _eval(model, xc2, Xp, rd, 0.0)
     keep = np.arange(n) != g
-    ctx.equal_bits(f1[keep], f0[keep], ("locality", "res", modes))
-    ctx.equal_bits(d1[..., keep], d0[..., keep], ("locality", "dres", modes))
+    ctx.close(f1[keep], f0[keep], ("locality", "res", modes), rtol=1e-13, scale=float(np.max(np.abs(f0))) + 1e-300)
+    ctx.close(d1[..., keep], d0[..., keep], ("locality", "dres", modes), rtol=1e-13, scale=float(np.max(np.abs(d0))) + 1e-300)
     # cutoff law
     rc = case["rhocut"]
     rho_tot = rd[:, 0].sum(0)
